@@ -217,8 +217,10 @@ class CallGraph:
     def all_edges(self, x):
         return set(self.edges.get(x, ())) | set(self.cb_edges.get(x, ()))
 
-    def reach(self, roots, speculative=False):
-        """{node: predecessor} for all nodes reachable from roots (BFS)."""
+    def reach(self, roots, speculative=False, runtime_only=False):
+        """{node: predecessor} for all nodes reachable from roots (BFS).  With runtime_only the initialisers of
+        constants and statics are not entered: they are evaluated by the compiler (a panic there is a build error,
+        not a run-time event), so what they call is not reachable at run time through them."""
         prev = {}
         q = []
         for r in roots:
@@ -227,6 +229,8 @@ class CallGraph:
                 q.append(r)
         while q:
             x = q.pop(0)
+            if runtime_only and x in self.nodes and str(self.nodes[x].kind).startswith(("Const", "Static", "AnonConst", "AssocConst", "InlineConst")):
+                continue
             for y in sorted(self.all_edges(x) if speculative else self.edges.get(x, ())):
                 if y not in prev:
                     prev[y] = x
